@@ -147,7 +147,7 @@ Lemma traverse_py v keys : forall x, traverse v keys = TVal x <-> py_path v keys
 Proof.
   revert v. induction keys as [|k ks IH]; intros v x; cbn [traverse py_path].
   - split; intros H; inversion H; reflexivity.
-  - destruct v as [| | | | |l|d]; destruct k as [i|s]; try (split; discriminate).
+  - destruct v as [|vb|vz|vn vi vf|vs|l|d]; destruct k as [i|s]; try (split; discriminate).
     + destruct (list_get l i); [apply IH | split; discriminate].
     + destruct (assoc s d); [apply IH | split; discriminate].
 Qed.
@@ -272,14 +272,15 @@ Proof.
     destruct d as [|[k x] d].
     + reflexivity.
     + apply negb_true_iff. destruct (existsb (str_eqb (jtext (JDict ((k, x) :: d)))) falsy_texts) eqn:Ex; [|reflexivity].
-      apply falsy_In in Ex. cbn [jtext map] in Ex. falsy_cases Ex; try discriminate Ex.
-      inversion Ex as [H]. symmetry in H.
-      apply (app_inv_tail [c_rbrace] (join_with c_comma (_ :: _)) []) in H.
-      apply join_nonempty in H; [contradiction | discriminate].
+      apply falsy_In in Ex. cbn [jtext] in Ex.
+      match type of Ex with In (_ :: ?b ++ _) _ => set (body := b) in Ex end.
+      assert (Hb : body <> []) by (subst body; cbn [map]; apply join_nonempty; discriminate).
+      clearbody body. falsy_cases Ex; try discriminate Ex.
+      inversion Ex as [H]. symmetry in H. apply (app_inv_tail [c_rbrace] body []) in H. contradiction.
 Qed.
 
 (* ------------------------------------------------------------------ arrays *)
-Lemma index_forms p len v : 0 <= p -> index_const p len v = index_expr p len v.
+Lemma index_forms p len v : 0 <= p <= 1 -> index_const p len v = index_expr p len v.
 Proof. intros Hp. unfold index_const, index_expr. destruct (v >=? 0) eqn:E; lia. Qed.
 
 Section Arr.
@@ -299,7 +300,10 @@ Proof.
 Qed.
 
 Lemma adjust_index n v : 0 <= n -> (v >= - n \/ v <= - 2 * n) -> adjust n (index_const 0 n v) = adjust n v.
-Proof. unfold adjust, index_const. intros Hn H. destruct (v >=? 0) eqn:E; lia. Qed.
+Proof.
+  unfold adjust, index_const. intros Hn H.
+  destruct (v >=? 0) eqn:E; repeat match goal with |- context [if ?c then _ else _] => destruct c eqn:? end; lia.
+Qed.
 
 Lemma sqlite_slice_ok l a b : bound_ok (zlen l) a -> bound_ok (zlen l) b -> sqlite_array_slice l a b = py_slice l a b.
 Proof.
@@ -330,7 +334,7 @@ Qed.
 End Arr.
 
 (* ------------------------------------------------------------------ witnesses of the recorded findings *)
-Definition k_xy : str := [120; c_quote; 121].     (* x"y *)
+Definition k_xy : str := [120; c_quote; 121].     (* x DQ y *)
 Lemma quote_key_breaks : parse_path ascii_only (json_path ascii_only [KKey k_xy]) <> Some [KKey k_xy].
 Proof. vm_compute. discriminate. Qed.
 
@@ -348,4 +352,21 @@ Proof. split; reflexivity. Qed.
 Lemma array_slice_wraps : sqlite_array_slice [1; 2; 3] (Some (-5)) None = [2; 3] /\ py_slice [1; 2; 3] (Some (-5)) None = [1; 2; 3].
 Proof. split; reflexivity. Qed.
 Lemma array_slice_stop_wraps : sqlite_array_slice [1; 2; 3] None (Some (-5)) = [1] /\ py_slice [1; 2; 3] None (Some (-5)) = [].
+Proof. split; reflexivity. Qed.
+
+(* ------------------------------------------------------------------ == with a constant *)
+Lemma eq_int_on_ints z c : json_eq_int (JInt z) c = py_eq_int (JInt z) c.
+Proof. reflexivity. Qed.
+Lemma eq_int_on_bools b c : json_eq_int (JBool b) c = py_eq_int (JBool b) c.
+Proof. reflexivity. Qed.
+Lemma eq_str_on_strs t s : json_eq_str (JStr t) s = py_eq_str (JStr t) s.
+Proof. reflexivity. Qed.
+Lemma eq_int_null c : json_eq_int JNull c = py_eq_int JNull c.
+Proof. reflexivity. Qed.
+
+Lemma eq_int_wrong_str : json_eq_int (JStr [115; 116; 114]) 0 = true /\ py_eq_int (JStr [115; 116; 114]) 0 = false.
+Proof. split; reflexivity. Qed.
+Lemma eq_int_wrong_list : json_eq_int (JList [JInt 7]) 0 = true /\ py_eq_int (JList [JInt 7]) 0 = false.
+Proof. split; reflexivity. Qed.
+Lemma eq_str_wrong_int : json_eq_str (JInt 7) [55] = true /\ py_eq_str (JInt 7) [55] = false.
 Proof. split; reflexivity. Qed.
